@@ -52,7 +52,20 @@ pub fn run_routes(out: &mut Out, rng: &mut Rng, thorough: bool) {
             for dim in [3usize, 2, 1] {
                 for periodic in [false, true] {
                     let n = 2 + rng.below(if thorough { 40 } else { 14 }) as usize;
-                    let inp = gen::make(rng, fam, dim, periodic, n);
+                    let mut inp = gen::make(rng, fam, dim, periodic, n);
+                    if fam == "uniform" {
+                        // arbitrary low mantissa bits: positions made as `anchor + t * width` lie on the coarse float grid of the
+                        // anchor, so `anchor + (p - anchor)` gives `p` back exactly - a generic f64 position does not (a route
+                        // that re-derives positions relative to the box must not move them).  Own generator: the main stream
+                        // of random numbers is not disturbed.
+                        let mut r2 = Rng::new(inp.gens[0].x.to_bits() ^ (n as u64).wrapping_mul(0x9E3779B97F4A7C15));
+                        for g in inp.gens.iter_mut() {
+                            for a in 0..dim {
+                                g[a] = f64::from_bits(g[a].to_bits() ^ r2.below(16));
+                            }
+                        }
+                        inp.family = inp.family.replacen("uniform", "uniformbits", 1);
+                    }
                     let nmask = if thorough { 4 } else { 2 };
                     for mi in 0..nmask {
                         let mask = if mi == 0 { None } else { Some(gen::make_mask(rng, inp.gens.len())) };
